@@ -17,7 +17,8 @@ pub fn run(thorough: bool, seed: u64, _replay: Option<String>) -> Report {
     let mut drv = Driver::spawn();
     let mut rng = Rng::new(seed);
     let sup = supported();
-    let reportable: Vec<&str> = sup.iter().copied().filter(|n| encoding_from_whatwg_label(n).is_some()).collect();
+    // reportable = the crate's own decode helper resolves a codec for the name (not: the codec crate's label table)
+    let reportable: Vec<&str> = sup.iter().copied().filter(|n| decode(b"", n, DecoderTrap::Strict, false, false).is_ok()).collect();
     rep.notes.push(format!("reportable names: {} of {} supported (exhaustive)", reportable.len(), sup.len()));
     // --- T3: the model's name functions against the real ones, on the label universe and on random spellings
     let mut spellings: Vec<String> = crate::dump::label_universe();
@@ -119,7 +120,13 @@ pub fn run(thorough: bool, seed: u64, _replay: Option<String>) -> Report {
         match catch_unwind(AssertUnwindSafe(|| m.encoding_aliases())) {
             Err(_) => rep.fail("oracle", "C18:aliases-panic", n, n.as_bytes(), None, "constructed"),
             Ok(aliases) => {
-                let codec_n = encoding_from_whatwg_label(n).unwrap();
+                let codec_n = match encoding_from_whatwg_label(n) {
+                    Some(c) => c,
+                    None => {
+                        rep.fail("oracle", "C18:reportable-name-unknown-to-codec-library", n, n.as_bytes(), None, "");
+                        continue;
+                    }
+                };
                 for a in aliases {
                     rep.count("oracle:alias");
                     if let Some(c) = iana_name(a) {
